@@ -54,6 +54,8 @@ def value_pool(rng, T):
     n_small = max(0, T - 1 - rng.randrange(0, 3)) if T > 0 else 0
     vals = [0, 1, -5, 2**62, 2**63, -2**63 - 1, 1.5, -0.0, float('inf'), None, True, False,
             '', 'x', 'y' * n_small, 'z' * n_big, 'w' * T if T else 'w',
+            '\u00e9\u20ac' * (n_big // 2 + 1), 'a\U0001F600' * (n_big // 2 + 1),     # file-backed text whose byte length differs
+
             b'', b'b', b'c' * n_small, b'd' * n_big,
             ('t', 1, None), [1, [2, [3]]], {'a': 1, 'b': (2, 3)}, frozenset([1, 2]),
             Blob('p' * 3), Blob('q' * n_big), ['L' * n_big, 1]]
